@@ -186,7 +186,8 @@ class HTMLTranslator(html4css1.HTMLTranslator):
         return super().starttag(node, tagname, suffix, **attributes)  # type: ignore[no-any-return]
 
     def visit_doctest_block(self, node: nodes.Node) -> None:
-        pysrc = node[0].astext()
+        # A code block directive without content has no child.
+        pysrc = node[0].astext() if len(node) else ''
         if node.get('codeblock'):
             self.body.append(flatten(colorize_codeblock(pysrc)))
         else:
